@@ -29,6 +29,8 @@ structure MDef where
   ports : List (List Conn)
   react : List POp
   initOps : List POp
+  panicOn : Option Nat := none      -- the handler panics when it handles exactly this payload
+  sleepOn : Option Nat := none      -- the handler overruns the step timeout on this payload
 deriving Repr, Inhabited
 
 structure Bench where
@@ -55,7 +57,10 @@ def Bench.prog (b : Bench) : Prog :=
     initOps := fun m => match b.models[m]? with | some md => opsOf m md md.initOps (900 + m) | none => []
     cap := fun m => match b.models[m]? with | some md => md.cap | none => 0
     isModel := fun m => m < b.models.length
-    inSim := fun m => match b.models[m]? with | some md => md.inSim | none => false }
+    inSim := fun m => match b.models[m]? with | some md => md.inSim | none => false
+    faultOn := fun m p => match b.models[m]? with
+      | some md => if md.panicOn = some p then some .panic else if md.sleepOn = some p then some .sleep else none
+      | none => none }
 
 /-- candidate labels of task `t`, in the order the scheduler tries them -/
 def candidates (s : St) (t : Nat) : List Label :=
